@@ -1534,7 +1534,13 @@ package snaps
 //@   && (forall e1 in 0..nent(F): forall e2 in e1 + 1..nent(F): eend(F, e1) < ehdr(F, e2))
 //@   && (forall j in 0..ntok(F): isTestHdr(tok(F, j)) ==> 0 <= entOf(F, j) && entOf(F, j) < nent(F) && ehdr(F, entOf(F, j)) <= j && j < eend(F, entOf(F, j)))
 //@   && (forall e1 in 0..nent(F): forall j in ehdr(F, e1) + 1..eend(F, e1): forall e2 in 0..nent(F): tok(F, j) != tok(F, ehdr(F, e2)))
-//@ axiom entryForm_def: forall F Str {entryForm(F)}: entryForm(F) == entryFormDef(F)
+// the definition is opaque in the VCs of functions (scope=lemmas): they use the clause lemmas below
+//@ axiom entryForm_def scope=lemmas: forall F Str {entryForm(F)}: entryForm(F) == entryFormDef(F)
+//@ lemma ef_nent @C07,C09,C10 use=lines: forall F Str {nent(F)}: entryForm(F) ==> nent(F) >= 0
+//@ lemma ef_entry @C07,C09,C10 use=lines: forall F Str, e Int {ehdr(F, e)}: entryForm(F) && 0 <= e && e < nent(F) ==> 0 <= ehdr(F, e) && ehdr(F, e) < eend(F, e) && eend(F, e) < ntok(F) && isTestHdr(tok(F, ehdr(F, e))) && tok(F, eend(F, e)) == "---" && eidx(F, tok(F, ehdr(F, e))) == e
+//@ lemma ef_noend @C07,C09,C10 use=lines: forall F Str, e Int, j Int {eend(F, e), seg(F, j)}: entryForm(F) && 0 <= e && e < nent(F) && ehdr(F, e) < j && j < eend(F, e) ==> tok(F, j) != "---"
+//@ lemma ef_order @C07,C09,C10 use=lines: forall F Str, e1 Int, e2 Int {eend(F, e1), ehdr(F, e2)}: entryForm(F) && 0 <= e1 && e1 < e2 && e2 < nent(F) ==> eend(F, e1) < ehdr(F, e2)
+//@ lemma ef_k2 @C07,C09,C10 use=lines: forall F Str, e1 Int, j Int, e2 Int {eend(F, e1), seg(F, j), ehdr(F, e2)}: entryForm(F) && 0 <= e1 && e1 < nent(F) && 0 <= e2 && e2 < nent(F) && ehdr(F, e1) < j && j < eend(F, e1) ==> tok(F, j) != tok(F, ehdr(F, e2))
 // the gap before entry n: from just after the terminator of entry n-1 up to the header of entry n (or the end)
 //@ specfun gapLo(F Str, n Int) Int
 //@ specfun gapHi(F Str, n Int) Int
@@ -1584,20 +1590,26 @@ package snaps
 //@ specfun idxOf(s Slice<Str>, x Str) Int
 //@ axiom idxOf_hit: forall s Slice<Str>, k Int {s[k]}: 0 <= k && k < len(s) ==> 0 <= idxOf(s, s[k]) && idxOf(s, s[k]) < len(s) && s[idxOf(s, s[k])] == s[k]
 //@ specfun inS(s Slice<Str>, x Str) Bool = 0 <= idxOf(s, x) && idxOf(s, x) < len(s) && s[idxOf(s, x)] == x
+// uniqAt(s, k): the element at index k occurs nowhere else in s
+//@ specfun uniqAt(s Slice<Str>, k Int) Bool
+//@ axiom uniqAt_def: forall s Slice<Str>, k Int {uniqAt(s, k)}: uniqAt(s, k) == (forall k2 in 0..len(s): k2 != k ==> s[k2] != s[k])
 // relClean(F0, F1, ...): what a rewrite by Clean may do to a file. For every entry of F0: if removal was not asked for,
 // or the entry is live (its id is an occurrence key of the registry of this file, or it is skip-protected), F1 holds the
 // entry with the body it had in F0; otherwise (removal asked for, entry stale) F1 has no line equal to its header.
 //@ specfun liveID(id Str, nn Bool, d Array<Str,Bool>, v Array<Str,Int>, count Int, runOnly Str, sk Slice<Str>) Bool = occKeyU(nn, d, v, count, fn.snaps.snapshotOccurrenceFMT, id) || skipSpec(id, runOnly, sk)
 //@ specfun relClean(F0 Str, F1 Str, update Bool, nn Bool, d Array<Str,Bool>, v Array<Str,Int>, count Int, runOnly Str, sk Slice<Str>) Bool
+// entryOK(F, G, e, keep): entry e of F is in G with the body it had in F if keep, and G has no line equal to its header if not
+//@ specfun entryOK(F Str, G Str, e Int, keep Bool) Bool = (keep ==> found(G, tok(F, ehdr(F, e))) && body(G, tok(F, ehdr(F, e))) == body(F, tok(F, ehdr(F, e)))) && (!keep ==> absentU(G, tok(F, ehdr(F, e))))
 //@ specfun relCleanDef(F0 Str, F1 Str, update Bool, nn Bool, d Array<Str,Bool>, v Array<Str,Int>, count Int, runOnly Str, sk Slice<Str>) Bool = forall e in 0..nent(F0):
-//@      ((!update || liveID(idOfHdr(tok(F0, ehdr(F0, e))), nn, d, v, count, runOnly, sk)) ==> found(F1, tok(F0, ehdr(F0, e))) && body(F1, tok(F0, ehdr(F0, e))) == body(F0, tok(F0, ehdr(F0, e))))
-//@   && ((update && !liveID(idOfHdr(tok(F0, ehdr(F0, e))), nn, d, v, count, runOnly, sk)) ==> absentU(F1, tok(F0, ehdr(F0, e))))
+//@      entryOK(F0, F1, e, !update || liveID(idOfHdr(tok(F0, ehdr(F0, e))), nn, d, v, count, runOnly, sk))
 //@ axiom relClean_def: forall F0 Str, F1 Str, update Bool, nn Bool, d Array<Str,Bool>, v Array<Str,Int>, count Int, runOnly Str, sk Slice<Str> {relClean(F0, F1, update, nn, d, v, count, runOnly, sk)}:
 //@      relClean(F0, F1, update, nn, d, v, count, runOnly, sk) == relCleanDef(F0, F1, update, nn, d, v, count, runOnly, sk)
+//@ lemma cap_props @C07,C09,C10 use=lines: forall F Str, e1 Int, T Str, e2 Int {capPart(F, e1, T, eend(F, e1)), ehdr(F, e2)}: entryForm(F) && 0 <= e1 && e1 < nent(F) && 0 <= e2 && e2 < nent(F) && capOK(F, e1, T) ==> lacksT(T, tok(F, ehdr(F, e2))) && noENDt(T) && term(T)
 //@ lemma entry_kept @C07,C09,C10 use=lines: forall F Str, G Str, e Int, T Str {capPart(F, e, T, eend(F, e)), bodyIs(G, tok(F, ehdr(F, e)), T)}: entryForm(F) && 0 <= e && e < nent(F) && capOK(F, e, T) && found(G, tok(F, ehdr(F, e))) && bodyIs(G, tok(F, ehdr(F, e)), T)
 //@      ==> body(G, tok(F, ehdr(F, e))) == body(F, tok(F, ehdr(F, e)))
 //@ mode str
 //@ lemma hdr_id @C07,C09,C10 use=ctl,lines: forall b Str {idOfHdr(b)}: isTestHdr(b) ==> "[" + idOfHdr(b) + "]" == b
+//@ lemma hdr_id_inv @C07,C09,C10 use=ctl,lines: forall x Str {"[" + x + "]"}: idOfHdr("[" + x + "]") == x
 //@ lemma hdr_shape @C07,C09,C10 use=ctl,lines: forall b Str {prefixof("[Test", b)}: isTestHdr(b) ==> b != "" && b != "---"
 //@ mode all
 //@ func examineSnaps(registry, used, runOnly, count, update, sort) returns (obs, err)
@@ -1610,7 +1622,7 @@ package snaps
 //@   ensures [nonsnap] forall p Str {fsc[p]}: (forall k in 0..len(used): used[k] != p) ==> fsc[p] == old(fsc)[p]
 //@   ensures [noop] !update && !sort ==> fswrites == old(fswrites) && fsc == old(fsc)
 //@   ensures [only_used] forall p Str {fsc[p]}: (forall k in 0..len(used): used[k] != p) ==> fsc[p] == old(fsc)[p]
-//@   ensures [content_kept] forall kk in 0..len(used): (forall k2 in 0..len(used): k2 != kk ==> used[k2] != used[kk]) && entryForm(old(fsc)[used[kk]]) && err == nil
+//@   ensures [content_kept] forall kk in 0..len(used): uniqAt(used, kk) && entryForm(old(fsc)[used[kk]]) && err == nil
 //@        ==> fsc[used[kk]] == old(fsc)[used[kk]] || relClean(old(fsc)[used[kk]], fsc[used[kk]], update, registry[used[kk]] != nil, dom(registry[used[kk]]), vals(registry[used[kk]]), count, runOnly, skippedTests.values)
 //@   let mapsKept = forall r0 Ref: old(alloc)[r0] ==> domheap("map[string]struct{}")[r0] == old(domheap("map[string]struct{}"))[r0] && valheap("map[string]struct{}")[r0] == old(valheap("map[string]struct{}"))[r0]
 //@         && domheap("map[string]string")[r0] == old(domheap("map[string]string"))[r0] && valheap("map[string]string")[r0] == old(valheap("map[string]string"))[r0]
@@ -1624,7 +1636,7 @@ package snaps
 //@   loop 1 invariant mapsKept && gate && locals && 0 <= $idx_1 && len(testIDs) == 0
 //@   loop 1 invariant [reset] wbuf[data] == "" && (forall id Str {has(tests, id)}: !has(tests, id))
 //@   let unvisited = forall p Str {fsc[p]}: (forall k2 in 0..$idx_1: used[k2] != p) ==> fsc[p] == old(fsc)[p]
-//@   let doneOK = forall kk in 0..$idx_1: (forall k2 in 0..len(used): k2 != kk ==> used[k2] != used[kk]) && entryForm(old(fsc)[used[kk]])
+//@   let doneOK = forall kk in 0..$idx_1: uniqAt(used, kk) && entryForm(old(fsc)[used[kk]])
 //@        ==> fsc[used[kk]] == old(fsc)[used[kk]] || relClean(old(fsc)[used[kk]], fsc[used[kk]], update, registry[used[kk]] != nil, dom(registry[used[kk]]), vals(registry[used[kk]]), count, runOnly, skippedTests.values)
 //@   loop 1 invariant [visited] unvisited && doneOK
 //@   loop 1.1 invariant mapsKept && gate && locals && 0 <= $idx_1 && $idx_1 < len(used) && snapPath == used[$idx_1]
@@ -1664,9 +1676,8 @@ package snaps
 //@       && (forall k in 0..n: has(tests, testIDs[k]) ==> capOK(F, eidx(F, "[" + testIDs[k] + "]"), tests[testIDs[k]]))
 //@       && (forall e in 0..nent(F): inS(testIDs, idOfHdr(tok(F, ehdr(F, e)))))
 //@       && (forall k in 0..n: has(tests, testIDs[k]) == (!update || has(registeredTests, testIDs[k]) || skipSpec(testIDs[k], runOnly, skippedTests.values)))
-//@       && (forall k in 0..$idx: !has(tests, testIDs[k]) ==> absentU(G, "[" + testIDs[k] + "]"))
-//@       && (forall k in 0..$idx: has(tests, testIDs[k]) ==> found(G, "[" + testIDs[k] + "]") && body(G, "[" + testIDs[k] + "]") == body(F, "[" + testIDs[k] + "]"))
-//@       && (forall k in $idx..n: absentU(G, "[" + testIDs[k] + "]"))
+//@       && (forall e in 0..nent(F): idxOf(testIDs, idOfHdr(tok(F, ehdr(F, e)))) < $idx ==> entryOK(F, G, e, has(tests, idOfHdr(tok(F, ehdr(F, e))))))
+//@       && (forall e in 0..nent(F): idxOf(testIDs, idOfHdr(tok(F, ehdr(F, e)))) >= $idx ==> absentU(G, tok(F, ehdr(F, e))))
 //@   loop 1.2 invariant (update || sort) && (forall p Str {fsc[p]}: (forall k in 0..len(used): used[k] != p) ==> fsc[p] == old(fsc)[p])
 
 // ---- summary (C20) -----------------------------------------------------------------------------------
